@@ -13,6 +13,9 @@ use std::path::{Path, PathBuf};
 use std::sync::{Arc, Condvar, Mutex};
 use std::time::{Duration, Instant};
 
+#[path = "c18/uid.rs"]
+mod uid;
+
 // ------------------------------------------------------------------ case description
 #[derive(Clone, Debug, PartialEq)]
 enum Call {
@@ -1325,8 +1328,12 @@ struct ClientProc {
 }
 impl ClientProc {
     fn start(rip: &Path, data: &Path, ws: &Path) -> std::io::Result<Self> {
+        Self::start_with(std::process::Command::new(rip), data, ws)
+    }
+    /// `cmd` = the command that runs the rip binary (possibly through a wrapper such as `unshare --pid --fork`)
+    fn start_with(mut cmd: std::process::Command, data: &Path, ws: &Path) -> std::io::Result<Self> {
         use std::io::BufRead;
-        let mut child = std::process::Command::new(rip)
+        let mut child = cmd
             .env("RIP_VERIF_ENSURE", "1")
             .env("RIP_DATA_DIR", data)
             .env("RIP_WORKSPACE_ROOT", ws)
@@ -1567,6 +1574,12 @@ fn grace_oracle(c: &GraceCase, o: &GraceOutcome) -> Option<(String, String)> {
             if c.live.contains(&m) && x[3] != 2 + m {
                 return Some((format!("poll {i} (clock {now} ms): the client removed meta.json of LIVE pid {m}"), "client_loop_takes_meta_of_live_pid".into()));
             }
+            // two independent signals: an authority whose endpoint ANSWERS is not gone, whatever the pid probe says about
+            // the pid in meta.json (a client in another pid namespace sees it as dead)
+            let lock_before = match p.lock { None => 0, Some((_, o, true)) => 2 + o, Some((_, _, false)) => 1 };
+            if p.reach && (x[3] != 2 + m || x[2] != lock_before) {
+                return Some((format!("poll {i} (clock {now} ms): meta.json names pid {m} (probe answer: {}) and its endpoint ANSWERED the ping, yet the client {} (lock code {lock_before} -> {}, meta code {} -> {}) instead of attaching", if c.live.contains(&m) { "alive" } else { "dead — e.g. a pid of another pid namespace" }, ACT_NAMES.get(x[0] as usize).copied().unwrap_or("?"), x[2], 2 + m, x[3]), "client_loop_takes_files_of_answering_authority".into()));
+            }
         }
     }
     None
@@ -1589,6 +1602,13 @@ fn grace_corpus() -> Vec<(&'static str, GraceCase)> {
     v.push(("unobserved_instance_switch", GraceCase { live: vec![102], polls: vec![p(0, Some((1, DEAD, false))), p(1100, Some((2, 102, false)))] }));
     // the legitimate cleanup: a dead starter's empty lock, watched for more than a second
     v.push(("dead_half_cleaned_after_grace", GraceCase { live: vec![], polls: vec![p(0, Some((1, DEAD, false))), p(400, Some((1, DEAD, false))), p(700, Some((1, DEAD, false))), p(0, None)] }));
+    // two independent signals (seed C18-7): the authority holds both files and ANSWERS, but its pid means nothing to this client
+    // (another pid namespace: every probe says dead) — attach, touch nothing
+    let pr = |advance: u64, lock: Option<(u64, u64, bool)>, meta: MetaF| PollIn { advance, lock, meta, reach: true, vanish: false };
+    v.push(("answering_authority_pid_not_visible", GraceCase { live: vec![], polls: vec![pr(0, Some((1, BYST, true)), MetaF::Rec(BYST))] }));
+    v.push(("answering_authority_after_spawn_and_wait", GraceCase { live: vec![], polls: vec![p(0, None), p(300, Some((1, BYST, false))), pr(300, Some((1, BYST, true)), MetaF::Rec(BYST))] }));
+    v.push(("answering_authority_other_lock_pid", GraceCase { live: vec![], polls: vec![pr(0, Some((1, DEAD, true)), MetaF::Rec(BYST))] }));
+    v.push(("answering_authority_no_lock", GraceCase { live: vec![], polls: vec![pr(0, None, MetaF::Rec(DEAD))] }));
     // MIXED leftovers, static over several polls (the client must leave a live pid's file alone, whatever the other file says)
     for (name, lock, meta, live) in [
         ("live_lock_dead_meta", Some((1, BYST, true)), MetaF::Rec(DEAD), vec![BYST]),
@@ -1624,8 +1644,17 @@ fn random_grace_case(r: &mut Rng) -> GraceCase {
                 Some((inst, *r.pick(&owners), r.chance(1, 3)))
             }
         };
-        let meta = match r.below(8) { 0 => MetaF::Rec(DEAD), 1 => MetaF::Rec(*r.pick(&owners)), _ => MetaF::Absent };
-        let mut p = PollIn { advance: *r.pick(&[0u64, 0, 50, 300, 700, 1100, 2500]), lock: cur, meta, reach: r.chance(1, 12), vanish: cur.is_some() && r.chance(1, 10) };
+        let mut meta = match r.below(8) { 0 => MetaF::Rec(DEAD), 1 => MetaF::Rec(*r.pick(&owners)), _ => MetaF::Absent };
+        let mut reach = r.chance(1, 12);
+        // a coherent authority: meta.json names the pid whose record is in lock.json; its endpoint answers half of the time,
+        // whatever the probe says about that pid (dead owners = pids this client cannot see)
+        if let Some((_, o, true)) = cur {
+            if r.chance(1, 5) {
+                meta = MetaF::Rec(o);
+                reach = r.chance(1, 2);
+            }
+        }
+        let mut p = PollIn { advance: *r.pick(&[0u64, 0, 50, 300, 700, 1100, 2500]), lock: cur, meta, reach, vanish: cur.is_some() && r.chance(1, 10) };
         // a change of hands is OBSERVED (hypothesis `stable_polls` of c18_client_grace_resets): two consecutive polls that both
         // see an unwritten lock see the same instance.  (The excluded scripts are the corpus case unobserved_instance_switch.)
         if let Some(q) = polls.last() {
@@ -1755,8 +1784,19 @@ fn real_shutdown_path(res: &mut RunResult) {
 }
 
 fn main() {
+    // re-executed under another uid by uid::real_probe: answers of the real pid_liveness, nothing else
+    let argv: Vec<String> = std::env::args().collect();
+    if argv.get(1).map(|s| s == "--c18-probe").unwrap_or(false) {
+        uid::probe_helper_main(&argv[2..]);
+    }
     let a = parse_args();
     let mut res = RunResult::new("C18", &a);
+    // this process is a child subreaper: a ripd spawned by a `rip` client command ends up here when it dies
+    unsafe { prctl(36 /* PR_SET_CHILD_SUBREAPER */, 1, 0, 0, 0) };
+    // 0. the REAL liveness probe (this process and a helper of another uid), before any liveness answer is scripted; the
+    //    client of another uid is started now and judged at the end (it waits out its own 8 s budget meanwhile)
+    let pending_client = uid::start_client_other_uid(&mut res);
+    let probe_files = uid::real_probe(&mut res, &a.out, !a.oracle_only());
     res.rule = "case = (leftover lock/meta files, 1-4 contenders each running the server loop, the client loop or a script of public calls, schedule of single file-system steps / crashes with adversarial ping/timer/deadline bits); all maximal 2-contender interleavings of the scripts over every leftover state (capped per pair), random 2-4 contender schedules with crashes; non-trivial = at least two contenders touched the files".into();
     let thorough = a.thorough();
     let mut r = Rng::new(a.seed);
@@ -2065,18 +2105,20 @@ fn main() {
     }
     wg.flush();
     // 7.-9. the real driver loops and the real shutdown path (wall-clock, a few seconds)
-    unsafe { prctl(36 /* PR_SET_CHILD_SUBREAPER */, 1, 0, 0, 0) };
     real_server_loop(&mut res);
+    uid::real_server_answering_authority(&mut res);
+    uid::other_uid_and_namespace(&mut res);
     real_server_timer(&mut res);
     real_client_loop(&mut res);
     real_shutdown_path(&mut res);
+    uid::finish_client_other_uid(&mut res, pending_client);
     rip_kernel::verif::set_hook(None);
     w.flush();
     for (p, n) in pcs_hist {
         res.bump_by(&format!("pc={p}"), n);
     }
     res.distinct_nontrivial = distinct.count();
-    res.case_files = w.files.iter().chain(wg.files.iter()).map(|p| p.display().to_string()).collect();
+    res.case_files = w.files.iter().chain(wg.files.iter()).map(|p| p.display().to_string()).chain(probe_files).collect();
     res.write(&a.out);
     println!("c18: {} cases, {} distinct non-trivial, {} oracle violations", res.evaluations, res.distinct_nontrivial, res.oracle_violations.len());
 }
